@@ -453,6 +453,26 @@ class Refinements:
                             self._add(place, v, v, gp, fi)
 
 
+            elif f.get("kind") == "in-arms" and f.get("all_unguarded"):
+                # control continues after the match only through its non-diverging arms: the scrutinee matched one of them
+                sc = hir.simp(f["scrut"])
+                gp = cx.last.get(id(f["match"]), cx.order.get(id(f["match"]), 0))
+                place = hir.place_str(sc) if sc.get("k") in ("local", "field", "un") else None
+                vals = set()
+                ok = place is not None
+                for pt in f["pats"]:
+                    try:
+                        ints = hir.pat_ints(pt) if pt.get("k") in ("lit", "prange", "por") else None
+                    except Unrecognised:
+                        ints = None
+                    if not ints:
+                        ok = False
+                        break
+                    vals |= ints
+                if ok and vals:
+                    self._add(place, min(vals), max(vals), gp, fi)
+
+
 def refinements(frames, cx, site_node):
     return Refinements(frames, cx, site_node)
 
